@@ -8,6 +8,8 @@ import EupsModel.Lemmas.VroApiSem
 import EupsModel.Lemmas.VroApi
 import EupsModel.Lemmas.VroPath
 import EupsModel.Lemmas.VroPretagAny
+import EupsModel.Lemmas.VroOrder
+import EupsModel.Lemmas.VroOrder2
 import EupsModel.Lemmas.VroSort
 /-! C03 — the version chosen is the one the Version Resolution Order designates.
 Property theorems only; the model is `Model/Vro.lean`, helper lemmas are in `Lemmas/Vro.lean`. -/
@@ -906,6 +908,61 @@ example : IsTagEntry exCtxU2 sMine (kUserColon ++ sMine) ∧ IsTagEntry exCtxU2 
   ⟨⟨by decide, by decide, by decide, by decide, by decide, by decide, by decide, by decide⟩,
    ⟨by decide, by decide, by decide, by decide, by decide, by decide, by decide, by decide⟩,
    ⟨by decide, by decide, by decide, by decide⟩, ⟨by decide, by decide, by decide, by decide⟩⟩
+
+/-- **The complete reading of the VRO for a request that names no version** (default configuration; keep / exact /
+inexact / -r / -z in any combination; tags of any kind): the answer is that of the FIRST of — the -t tags in command-line
+order, then the -T tags in command-line order, then `current` — that designates a version of the product
+(`firstDesignating`); nothing else on the VRO `selectVRO` built can answer.  (`hkeep`: with `--keep` at the top level the
+`keep` entry is looked up as a tag named `keep`; excluded.) -/
+theorem C03_unversioned_request_reads_tags_in_order (c : VroCfg) (a : VroArgs) (d : DefaultCfg c)
+    (ht : ∀ t ∈ a.tags, GoodTag c t) (hp : ∀ t ∈ a.postTags, GoodTag c t)
+    (out : VroOut) (hsel : selectVRO c a = .ok out)
+    (C : Ctx) (r : Req) (hr : r.already = none) (hn : r.named = none)
+    (hkeep : c.keep = false ∨ 0 < r.depth)
+    (key : Str → Str) (htag : ∀ t ∈ a.tags ++ a.postTags ++ [kCurrent], IsTagEntry C t (key t)) :
+    find C r out.vro = .ok (firstDesignating C r key (a.tags ++ a.postTags ++ [kCurrent])) :=
+  unversioned_request_reads_tags_in_order c a d ht hp out hsel C r hr hn hkeep key htag
+
+/-- **The complete reading of the VRO for a request that names a version or an expression** (default configuration; keep /
+exact / inexact / -r / -z in any combination; tags of any kind; nothing set up beforehand): the answer is that of the first
+-t tag, in command-line order, that designates a version; when none does, that of the two version entries `version`
+`versionExpr` alone (whose answers `C03_version_entry`, `C03_expr_entry_is_max` and their `_absent` companions describe) —
+the -T tags and `current` behind them are never consulted: pre-tags override the named version, post-tags do not, and the
+request fails rather than fall through. -/
+theorem C03_versioned_request_reading (c : VroCfg) (a : VroArgs) (d : DefaultCfg c)
+    (ht : ∀ t ∈ a.tags, GoodTag c t) (hp : ∀ t ∈ a.postTags, GoodTag c t)
+    (out : VroOut) (hsel : selectVRO c a = .ok out)
+    (C : Ctx) (r : Req) (hr : r.already = none) (hn : r.named.isSome = true)
+    (hkeep : c.keep = false ∨ 0 < r.depth)
+    (key : Str → Str) (htag : ∀ t ∈ a.tags ++ a.postTags ++ [kCurrent], IsTagEntry C t (key t)) :
+    find C r out.vro =
+      match firstDesignating C r key a.tags with
+      | some hit => .ok (some hit)
+      | none => walk C r [kVersion, kVersionExpr] :=
+  versioned_request_reading c a d ht hp out hsel C r hr hn hkeep key htag
+
+/-- non-vacuity: `-T stable p 9.9` (9.9 declared nowhere; `stable -> 1.0`): the request fails, `stable` is not consulted -/
+example : find exCtx (exReq (some v99) 1) [kTypeExact, kCommandLine, kVersion, kVersionExpr, sStable, sCurrent] = .ok none ∧
+    walk exCtx (exReq (some v99) 1) [kVersion, kVersionExpr] = .ok none := by decide
+
+/-- "Post-tags apply only when no usable version is named", the positive half: for a request that names no version, when no
+-t tag designates a version, the first -T tag in command-line order that designates one answers; when none does, `current`. -/
+theorem C03_posttags_apply_in_order (c : VroCfg) (a : VroArgs) (d : DefaultCfg c)
+    (ht : ∀ t ∈ a.tags, GoodTag c t) (hp : ∀ t ∈ a.postTags, GoodTag c t)
+    (out : VroOut) (hsel : selectVRO c a = .ok out)
+    (C : Ctx) (r : Req) (hr : r.already = none) (hn : r.named = none)
+    (hkeep : c.keep = false ∨ 0 < r.depth)
+    (key : Str → Str) (htag : ∀ t ∈ a.tags ++ a.postTags ++ [kCurrent], IsTagEntry C t (key t))
+    (hpre : ∀ t ∈ a.tags, lookupTag C.db (key t) r.name r.flavor = none) :
+    find C r out.vro = .ok (firstDesignating C r key (a.postTags ++ [kCurrent])) :=
+  posttags_apply_in_order c a d ht hp out hsel C r hr hn hkeep key htag hpre
+
+/-- non-vacuity: `-t beta -T stable p` on the example database (no `beta` anywhere; `stable -> 1.0` in stack 0):
+answered by `stable`, not by `current` -/
+example : find exCtx (exReq none 0) [kTypeExact, kCommandLine, sBeta, kVersion, kVersionExpr, sStable, sCurrent]
+    = .ok (some ⟨⟨v10, sLinux, 0⟩, sStable, sStable⟩) := by decide
+example : firstDesignating exCtx (exReq none 0) id [sBeta, sStable, sCurrent] = some ⟨⟨v10, sLinux, 0⟩, sStable, sStable⟩ := by
+  decide
 
 /-- Post-tags apply only when no usable version is named: for a request that names a version or an
 expression the answer on the VRO `selectVRO` built is the answer of an initial piece of that VRO which
